@@ -80,6 +80,7 @@ func verifyFunction(p *Program, ct *Contracts, fc *FuncContract, cc *CaseContrac
 		e.assume(pc, not(eq(v.T, "0")))
 		e.assumeAllocated(st, pc, v)
 	}
+	e.assume("true", not(sel(e.comp(st, "alloc", arrSort(sBool)), "0"))) // nil is never an allocated object
 	for _, u := range fc.Uses {
 		e.useLemma(u)
 	}
@@ -96,6 +97,13 @@ func verifyFunction(p *Program, ct *Contracts, fc *FuncContract, cc *CaseContrac
 	}
 	for _, cl := range reqs {
 		e.assume(pc, env.evalBool(cl.Expr))
+	}
+	for _, nr := range fc.NoRead {
+		for _, t := range env.targets(nr) {
+			if t.kind == "loc" && t.loc.Comp != "" {
+				e.noRead = append(e.noRead, noReadLoc{t.loc.Comp, t.loc.Idx[0], nr.String()})
+			}
+		}
 	}
 	// vacuity: the preconditions must be satisfiable (obligation that must NOT be provable)
 	o := e.oblige("vacuity", "requires-sat", pc, "false", "preconditions are satisfiable (this goal must fail)", fn.Pos(), nil)
@@ -469,7 +477,8 @@ func (f *Frame) lockCover(rn, idx string, pos token.Pos) {
 		return
 	}
 	for ch, t := range f.covers {
-		if t.comp == rn {
+		// only on paths that passed the go statement (its block dominates the current one)
+		if t.comp == rn && (t.blk == nil || f.cur == nil || t.blk.Dominates(f.cur)) {
 			pend := e.comp(f.st, "CH.pending", arrSort(sInt))
 			e.oblige("handoff", "lock-cover", f.pc, implies(eq(idx, t.idx), eq(sel(pend, ch), "0")),
 				"the lock protecting a producer goroutine's reads is not released before its channel is drained", pos, nil)
@@ -477,6 +486,9 @@ func (f *Frame) lockCover(rn, idx string, pos token.Pos) {
 	}
 }
 
-type coverInfo struct{ comp, idx string }
+type coverInfo struct {
+	comp, idx string
+	blk       *ssa.BasicBlock // block of the go statement
+}
 
 var _ = sort.Strings
